@@ -311,14 +311,15 @@ Proof.
 Qed.
 
 (* ------------------------------------------------------------------ node-local part *)
-Lemma match_attrs_spec : forall g tbl pend h pats st st', match_attrs pats h st = Ok st' ->
+Lemma match_attrs_spec : forall fl g tbl pend h pats st st', match_attrs fl pats h st = Ok st' ->
   step g tbl pend st st' /\ forallb (attr_local (sig_of st') h) pats = true.
 Proof.
-  induction pats as [| [name ap] t IH]; intros st st' H; simpl in *.
+  intros fl g tbl pend h. induction pats as [| [name ap] t IH]; intros st st' H; simpl in *.
   - inversion H; subst. split; auto. apply step_refl.
   - unfold attr_local at 1; simpl.
     destruct (assoc String.eqb name (h_attrs h)) as [a|] eqn:A; destruct ap as [c | x none_ok].
-    + destruct (attr_const_matches c a) as [[|]|] eqn:M; try discriminate.
+    + unfold attr_const_eval in H.
+      destruct (attr_const_matches c a) as [[|]|] eqn:M; [| | destruct (attr_fix fl)]; try discriminate.
       destruct (IH _ _ H) as [S1 F1]. split; auto.
     + apply rbind_ok in H as (st1 & B & H). destruct (IH _ _ H) as [S1 F1].
       destruct x as [y|]; simpl in B.
@@ -336,18 +337,18 @@ Proof.
       * inversion B; subst. split; auto.
 Qed.
 
-Lemma node_local_spec : forall g tbl pend np h st st', node_local np h st = Ok st' ->
+Lemma node_local_spec : forall fl g tbl pend np h st st', node_local fl np h st = Ok st' ->
   step g tbl pend st st' /\
   spat_matches (np_op np) (h_op h) = true /\ spat_matches (np_dom np) (h_dom h) = true /\
   forallb (attr_local (sig_of st') h) (np_attrs np) = true /\
   (np_other_attrs np || no_other_attrs np h) = true.
 Proof.
-  unfold node_local; intros g tbl pend np h st st' H.
+  unfold node_local; intros fl g tbl pend np h st st' H.
   destruct (spat_matches (np_op np) (h_op h)); simpl in H; try discriminate.
   destruct (spat_matches (np_dom np) (h_dom h)); simpl in H; try discriminate.
   apply rbind_ok in H as (st1 & M & H).
   destruct (np_other_attrs np || no_other_attrs np h) eqn:O; inversion H; subst.
-  destruct (match_attrs_spec g tbl pend _ _ _ _ M) as [S F]. auto.
+  destruct (match_attrs_spec fl g tbl pend _ _ _ _ M) as [S F]. auto.
 Qed.
 
 (* ------------------------------------------------------------------ outputs *)
@@ -533,21 +534,21 @@ Proof.
   - destruct (nth_error tbl p) as [np|] eqn:Tp; try discriminate.
     destruct (nth_error (g_nodes g) n) as [h|] eqn:Gn; try discriminate.
     apply rbind_ok in H as (st1 & NL & H).
-    destruct (node_local_spec g tbl pend _ _ _ _ NL) as ((E1 & G1 & B1) & Hop & Hdom & Hat & Hoa).
+    destruct (node_local_spec fl g tbl pend _ _ _ _ NL) as ((E1 & G1 & B1) & Hop & Hdom & Hat & Hoa).
     destruct ((List.length (np_ins np) <? List.length (h_ins h)) && negb (np_other_ins np)) eqn:Cnt; try discriminate.
     apply rbind_ok in H as (st3 & MI & H).
     assert (L1 : lookup_nb p st1 = None).
     { unfold lookup_nb in *. destruct (assoc Nat.eqb p (all_nb st1)) eqn:A; auto.
       (* node_local does not touch node bindings *)
       exfalso. clear - NL L A.
-      assert (forall pats st st', match_attrs pats h st = Ok st' -> all_nb st' = all_nb st).
+      assert (forall pats st st', match_attrs fl pats h st = Ok st' -> all_nb st' = all_nb st).
       { induction pats as [| [nm ap] t IHt]; intros s0 s1 Hm; simpl in Hm; [inversion Hm; auto|].
         assert (Bn : forall x b s2, bind x b s0 = Some s2 -> all_nb s2 = all_nb s0).
         { unfold bind; intros x b s2 Hb. destruct (lookup_b x s0); [destruct (bval_eqb b0 b); inversion Hb; auto|].
           inversion Hb; subst. destruct s0; reflexivity. }
         destruct (assoc String.eqb nm (h_attrs h)); destruct ap as [c | [y|] none_ok]; simpl in Hm;
           try discriminate.
-        - destruct (attr_const_matches c a) as [[|]|]; try discriminate. eauto.
+        - unfold attr_const_eval in Hm. destruct (attr_const_matches c a) as [[|]|]; [| | destruct (attr_fix fl)]; try discriminate. eauto.
         - destruct (bind y (BAttr nm a) s0) eqn:Hb; simpl in Hm; try discriminate.
           rewrite (IHt _ _ Hm). eauto.
         - eauto.
